@@ -1381,9 +1381,14 @@ def strip_interaction_caps(lines, impl_lines):
                 b = unhx(f[3])
                 si = screens[conn_screen[ci]]
                 k = b.find(si)
-                if k >= 0 and len(b) == k + len(si) + TIGHT_CAPS_LEN and b[k + len(si):k + len(si) + 8] == bytes([0, 4, 0, 6, 0, 12, 0, 0]):
-                    f[3] = hx(b[:k + len(si)])
-                    parts[i] = ",".join(f)
+                rest = b[k + len(si):] if k >= 0 else b""
+                if len(rest) >= 8 and rest[6:8] == b"\0\0":
+                    ns, nc, ne = (int.from_bytes(rest[j:j + 2], "big") for j in (0, 2, 4))
+                    # file transfer announced (4 + 6 message capabilities) or, for a view-only client /
+                    # disabled file transfer, none (c3e8ae4); always the 12 encoding capabilities
+                    if (ns, nc) in ((4, 6), (0, 0)) and ne == 12 and len(rest) == 8 + 16 * (ns + nc + ne):
+                        f[3] = hx(b[:k + len(si)])
+                        parts[i] = ",".join(f)
         out.append(" | ".join(parts))
     return out
 
